@@ -1448,7 +1448,7 @@ Proof.
 Qed.
 
 (* ---- side conditions that cannot be dropped --------------------------------------------------------------------------- *)
-(* FINDING (not a known class: defects_C06 = []).  `optional Color color = 1 [(sebuf.http.nullable) = true]` passes
+(* FINDING (found by this proof; since tagged D6NullableEnum and listed in KNOWN_FINDINGS.jsonl, confirmed on the emitted document).  `optional Color color = 1 [(sebuf.http.nullable) = true]` passes
    annotations.ValidateNullableAnnotation (nullable.go:46-70 refuses only non-optional and message fields).
    openapiv3/types.go:81-100 makeNullableSchema appends "null" to `type` and leaves `enum` as it is, so the property is
    published as {type: [string, null], enum: [COLOR_UNSPECIFIED, COLOR_RED]}; httpgen/nullable.go:147-156 sends
@@ -1457,7 +1457,8 @@ Qed.
 Example message_conforms_nullable_needs_nonenum :
   let m := [(s "id", vstr "x")] in
   let j := JObj [(s "id", JStr (s "x")); (s "color", JNull)] in
-  k6_common (k6q "NulEnum") k6_nulenum m /\
+  defects_C06 k6s no_side (cd_cs k6doc) (k6q "NulEnum") m = [D6NullableEnum] /\
+  wt k6s (KMessage (k6q "NulEnum")) (FM m) = true /\
   owner_of k6s k6_nulenum = Own FtNullable /\ nulplain_msg k6_nulenum = true /\ kids_plain k6s k6_nulenum m = true /\
   nullable_shape k6_nulenum = false /\
   encode Ex k6s (k6q "NulEnum") m = ROk j /\ Mapping.to_json Ex k6s (k6q "NulEnum") m = ROk j /\
